@@ -149,6 +149,19 @@ def _discharge(F, f, b, par, kind, x, text):
                     c = unblock(a["cond"])
                     if c.get("k") == "Binary" and c["op"] == "Lt" and pp(strip(c["l"])) == cname and const_eval(c["r"]) is not None:
                         return "G-ctr: increment guarded by %s < %d" % (cname, const_eval(c["r"]))
+        if kind == "AddAssign" and const_eval(x["r"]) == 1:
+            # the increment sits in a match arm whose pattern bounds the counter: `match (.., c) { (.., 0..=2) => c += 1, .. }`
+            cname = pp(strip(x["l"]))
+            anc = list(_ancestors(par, x))
+            for i_, a in enumerate(anc):
+                if a.get("k") is None and "pat" in a and "body" in a:
+                    m_ = next((z for z in anc[i_ + 1:] if z.get("k") == "Match"), None)
+                    if m_ is None or not any(arm is a for arm in m_["arms"]):
+                        continue
+                    hi = _pat_upper(a["pat"], strip(m_["scrut"]), cname)
+                    bits = {"u8": 8, "u16": 16, "u32": 32, "u64": 64, "usize": 64}.get((x["l"].get("ty") or ty or "").replace("&mut ", "").replace("&", ""), 0)
+                    if hi is not None and bits and hi < (1 << bits) - 1:
+                        return "G-ctr: increment in a match arm whose pattern bounds %s by %d" % (cname, hi)
         if kind == "Add" and ty in ("u16", "u32") and const_eval(x["r"]) is not None:
             # TopicFilter::is_invalid: shared_group_sep + 1 with shared_group_sep in {0, 6}
             if root == "common::types::TopicFilter::is_invalid" and pp(strip(x["l"])) == "shared_group_sep":
@@ -171,6 +184,11 @@ def _discharge(F, f, b, par, kind, x, text):
             # 7 * var_idx with var_idx <= 3 (cap checked by T-varint2)
             if const_eval(x["l"]) == 7 or const_eval(x["r"]) == 7:
                 return "G-ctr: 7 * index with index <= 3 (T-varint2 cap)"
+        return None
+    if kind in ("Div", "Rem", "DivAssign", "RemAssign"):
+        dv = const_eval(x["r"])
+        if dv is not None and dv != 0:
+            return "G-const-div: division by the non-zero constant %d cannot panic on an unsigned type" % dv
         return None
     if kind == "Shl":
         r = _resolve_let(b, strip(x["r"]))
@@ -325,6 +343,32 @@ def _discharge(F, f, b, par, kind, x, text):
     return None
 
 
+def _pat_upper(pat, scrut, cname):
+    """Largest value the pattern allows for the scrutinee component spelled `cname`, or None."""
+    while pat.get("k") in ("Deref", "DerefPattern", "AscribeUserType") and pat.get("sub"):
+        pat = pat["sub"]
+    if pp(scrut) == cname or pp(scrut).lstrip("*") == cname.lstrip("*"):
+        k = pat.get("k")
+        if k == "Const" and isinstance(pat.get("val"), int) and not isinstance(pat.get("val"), bool):
+            return pat["val"]
+        if k == "Range" and isinstance(pat.get("hi"), int):
+            return pat["hi"] if pat.get("end") == "Included" else pat["hi"] - 1
+        if k == "Or":
+            his = [_pat_upper(q, scrut, cname) for q in pat.get("pats", [])]
+            return None if any(h is None for h in his) or not his else max(his)
+        if k == "Binding" and pat.get("sub"):
+            return _pat_upper(pat["sub"], scrut, cname)
+        return None
+    if scrut.get("k") == "Tuple" and pat.get("k") == "Leaf":
+        for sp in pat.get("subs", []):
+            i = int(sp["idx"])
+            if i < len(scrut["items"]):
+                h = _pat_upper(sp["pat"], strip(scrut["items"][i]), cname)
+                if h is not None:
+                    return h
+    return None
+
+
 def _err_free_ty(e):
     """`u16` for an expression of type Result<u16, _> that was unwrapped by `?`."""
     ty = (e.get("ty") or "")
@@ -373,6 +417,13 @@ def s_panic_decode(F, R):
     R.floor("S-panic", "sites in the decode closure", sum(c.values()), 60)
     R.floor("S-panic", "index sites", c.get("index", 0), 6)
     R.floor("S-panic", "expect/unwrap sites", c.get("expect", 0) + c.get("unwrap", 0), 10)
+
+
+def s_panic_validator(F, R):
+    """The topic-filter validator computes the cached separator index: a panic-capable or wrapping arithmetic site in it (a
+    narrow counter, an unguarded subtraction) makes the accessors' split wrong for the inputs that reach it."""
+    c = s_panic(F, R, ["common::types::TopicFilter::is_invalid"], "validator")
+    R.floor("S-panic", "sites in the filter validator", sum(c.values()), 3)
 
 
 def s_panic_encode(F, R):
